@@ -208,6 +208,10 @@ pub enum Op {
     Get(B32),
     /// has_event (a reader op of the concurrent mode)
     Has(B32),
+    /// Store::stats(): the id / time / author / author-kind entry counts (a reader op)
+    Stats,
+    /// Store::sync()
+    Sync,
     /// the NEXT op is killed at its k-th kill point and the run continues from the
     /// durable state of that instant (crash mode)
     Crash(u32),
@@ -241,6 +245,8 @@ impl Op {
             Op::TakeRef(_) => "take_ref",
             Op::Get(_) => "get",
             Op::Has(_) => "has",
+            Op::Stats => "stats",
+            Op::Sync => "sync",
             Op::Crash(_) => "crash",
             Op::Fail(_) => "fail",
             Op::Starve => "starve",
@@ -534,6 +540,8 @@ impl Op {
             Op::TakeRef(id) => format!("take_ref id={}", hex(id)),
             Op::Get(id) => format!("get id={}", hex(id)),
             Op::Has(id) => format!("has id={}", hex(id)),
+            Op::Stats => "stats".into(),
+            Op::Sync => "sync".into(),
             Op::Crash(k) => format!("crash k={k}"),
             Op::Fail(k) => format!("fail k={k}"),
             Op::Starve => "starve".into(),
@@ -565,6 +573,8 @@ impl Op {
             "take_ref" => Op::TakeRef(unhex32(kv.get("id")?)?),
             "get" => Op::Get(unhex32(kv.get("id")?)?),
             "has" => Op::Has(unhex32(kv.get("id")?)?),
+            "stats" => Op::Stats,
+            "sync" => Op::Sync,
             "crash" => Op::Crash(kv.get("k")?.parse().map_err(e)?),
             "fail" => Op::Fail(kv.get("k")?.parse().map_err(e)?),
             "starve" => Op::Starve,
